@@ -255,6 +255,7 @@ def build_stack(case):
       x = qkeras.QDepthwiseConv2D(
           tuple(l["ks"]), strides=tuple(l["st"]),
           dilation_rate=tuple(l["dil"]), padding=l["pad"], use_bias=l["bias"],
+          depth_multiplier=l.get("dm", 1),
           depthwise_quantizer=build_q(l["kq"]),
           bias_quantizer=build_q(l["bq"]) if l["bias"] else None, name=name)(x)
     elif k == "act":
@@ -281,7 +282,7 @@ def set_stack_weights(model, case, shapes):
     ks = kernel_shape(l, shapes[i])
     w = [lattice_values(l["kq"], ks, l["wmode"], rs)]
     if l["bias"]:
-      nb = ks[-1] if l["k"] != "dw2d" else ks[-2]
+      nb = ks[-1] if l["k"] != "dw2d" else ks[-2] * ks[-1]
       w.append(lattice_values(l["bq"], (nb,), l["wmode"], rs))
     model.get_layer("L%d" % i).set_weights(w)
 
@@ -327,6 +328,8 @@ def st_bias_q(st):
 
 def st_act_q(st):
   return st.one_of(
+      # 1-bit relu: values {0, 2^(integer-1)}
+      st.builds(lambda i: {"t": "relu", "bits": 1, "int": i}, st.integers(0, 2)),
       st.builds(lambda b, i: {"t": "relu", "bits": b, "int": min(i, b)},
                 st.integers(2, 6), st.integers(0, 2)),
       st.builds(lambda b, i: {"t": "relu", "bits": b, "int": min(i, b)},
